@@ -126,6 +126,28 @@ func (p *Prog) Func(pkg *ssa.Package, name string) *ssa.Function {
 	if o, ok := p.canon["func|"+pkgShort(pkg.Pkg)+"||"+name].(*types.Func); ok {
 		return p.SSA.FuncValue(o)
 	}
+	// an unexported package-level function turned into a method (a parameter became the receiver): unique by name
+	if !token.IsExported(name) {
+		var found *ssa.Function
+		n := 0
+		for _, mem := range pkg.Members {
+			if t, ok := mem.(*ssa.Type); ok {
+				if named, ok := t.Type().(*types.Named); ok {
+					for i := 0; i < named.NumMethods(); i++ {
+						if named.Method(i).Name() == name {
+							if fn := p.SSA.FuncValue(named.Method(i)); fn != nil {
+								found = fn
+								n++
+							}
+						}
+					}
+				}
+			}
+		}
+		if n == 1 {
+			return found
+		}
+	}
 	return nil
 }
 
@@ -152,6 +174,32 @@ func (p *Prog) Method(pkg *ssa.Package, typ, name string) *ssa.Function {
 	}
 	if fn := p.methodDirect(pkg, tn, name); fn != nil {
 		return fn
+	}
+	// an unexported method turned into a package-level function of the same name (receiver became a parameter)
+	if !token.IsExported(name) {
+		if fn := pkg.Func(name); fn != nil {
+			return fn
+		}
+		// ... or moved to another receiver type of the package (unique by name)
+		var found *ssa.Function
+		n := 0
+		for _, mem := range pkg.Members {
+			if t, ok := mem.(*ssa.Type); ok {
+				if named, ok := t.Type().(*types.Named); ok {
+					for i := 0; i < named.NumMethods(); i++ {
+						if named.Method(i).Name() == name {
+							if fn := p.SSA.FuncValue(named.Method(i)); fn != nil {
+								found = fn
+								n++
+							}
+						}
+					}
+				}
+			}
+		}
+		if n == 1 {
+			return found
+		}
 	}
 	return nil
 }
